@@ -2,6 +2,7 @@ from __future__ import annotations
 
 import sys
 from contextlib import AbstractAsyncContextManager
+from math import inf
 from types import TracebackType
 from typing import Any, Awaitable, Callable, Optional
 
@@ -12,6 +13,13 @@ from ..typing import AppWrapper, ASGIReceiveCallable, ASGIReceiveEvent, ASGISend
 
 if sys.version_info < (3, 11):
     from exceptiongroup import BaseExceptionGroup
+
+
+DISCONNECT_MESSAGES = {"http.disconnect", "websocket.disconnect"}
+
+
+def _is_disconnect(message: Any) -> bool:
+    return isinstance(message, dict) and message.get("type") in DISCONNECT_MESSAGES
 
 
 async def _handle(
@@ -52,20 +60,45 @@ class TaskGroup:
         scope: Scope,
         send: Callable[[Optional[ASGISendEvent]], Awaitable[None]],
     ) -> Callable[[ASGIReceiveEvent], Awaitable[None]]:
-        app_send_channel, app_receive_channel = trio.open_memory_channel[ASGIReceiveEvent](
-            config.max_app_queue_size
-        )
+        # The queue is bounded for everything but the final (disconnect)
+        # message: that one may be put from within the app's own send
+        # call, where waiting for the app to make room would wait for
+        # ever, and nothing may follow it.
+        app_send_channel, app_receive_channel = trio.open_memory_channel[ASGIReceiveEvent](inf)
+        slots = trio.Semaphore(config.max_app_queue_size)
+        disconnected = False
+
+        async def _put(message: ASGIReceiveEvent) -> None:
+            nonlocal disconnected
+            if _is_disconnect(message):
+                disconnected = True
+            else:
+                try:
+                    slots.acquire_nowait()
+                except trio.WouldBlock:
+                    await slots.acquire()
+                    if disconnected:
+                        slots.release()
+                        return  # Overtaken by the disconnect whilst waiting
+            app_send_channel.send_nowait(message)
+
+        async def _get() -> ASGIReceiveEvent:
+            message = await app_receive_channel.receive()
+            if not _is_disconnect(message):
+                slots.release()
+            return message
+
         self._nursery.start_soon(
             _handle,
             app,
             config,
             scope,
-            app_receive_channel.receive,
+            _get,
             send,
             trio.to_thread.run_sync,
             trio.from_thread.run,
         )
-        return app_send_channel.send
+        return _put
 
     def spawn(self, func: Callable, *args: Any) -> None:
         self._nursery.start_soon(func, *args)
